@@ -292,8 +292,15 @@ def _ops_for(rng, alpha, rows, w, big, shape="ragged"):
         r = rng.choice(cand)
         i = rng.randrange(len(r) - w + 1)
         pats.append(r[i:i + w])
+    if cand and w >= 2:      # near miss: an occurring window with only its last / a late letter changed
+        r = rng.choice(cand)
+        i = rng.randrange(len(r) - w + 1)
+        p = list(r[i:i + w])
+        j = rng.choice([w - 1, rng.randrange(w // 2, w)])
+        p[j] = (p[j] + 1 + rng.randrange(n - 1)) % n if n > 1 else p[j]
+        pats.insert(1, p)
     pats.append([rng.randrange(n) for _ in range(w)])
-    for p in pats[: (3 if big else 2)]:
+    for p in pats[: (4 if big else 3)]:
         yield dict(base, op="match", pat=p)
         if alpha in ("ACGT", "ACGTN", "AB") and rng.random() < 0.3:
             yield dict(base, op="match", pat=p, via="ascii")
